@@ -50,6 +50,36 @@ CHECKS["C16"] = ("exploration",
     "Generated-input search over downsample_grid, downsample_rand and dataset histories (dict/HDF5/hierarchy child; manual, box, polygon, invalid, limit; get_downsampled_scatter lin/log, both invalid modes, ret_mask, pending settings): requests are drawn relative to the numbers of valid events, events and occupied grid cells (0, 1, <V, V, V+1, N-1, N, N+1, >N); returned values are bit-identical to input[mask], count rule per mode, invalid points only after valid ones are exhausted, same mask on a second call with cleared cache and perturbed global RNG, inputs untouched. Exploration, not proof.",
     "Which points the grid step keeps is not asserted (only subset/count/reproducibility, as the property states); compiled code is black-box for git-diff mutants (a gcc driver mutates the generated C); two compiled defects are known findings.",
     "DESIGN.md §5 C16, notes/C16.md")
+CHECKS["C04"] = ("exploration",
+    "stateful operation-history generation (Hypothesis) on hierarchy chains of depth 1-4 + reference model (root-index views composed from observed filters, per-level sets of manually excluded root events, stateless per-level filter specification)",
+    "Generated histories (<=40 operations) on dict/HDF5 roots with scalar, image, mask, contour, trace, computed and temporary features: filter edits on any level (ranges, inactive ranges, key deletion, invalid, enable, limit, polygons), manual exclusion/re-inclusion on any level, reset, temporary features on any level, root configuration changes, reads, new youngest member, youngest and ancestor-only refreshes, scripted exclude->hide->refresh->unhide cycles. After every refresh each level must equal the filtered view of its parent for every feature kind and access form, and manual exclusions must sit on exactly the excluded root events. Exploration, not proof.",
+    "Views are composed from the observed parent filters (a wrong parent filter is caught by the separate per-level filter specification); computed features are compared with the root's values; manual/temporary operations are only applied to levels that are synchronised with their ancestors.",
+    "DESIGN.md §5 C04, notes/C04.md")
+CHECKS["C08"] = ("exploration",
+    "Hypothesis-generated HDF5 storage layouts (raw h5py) x task options + structural round-trip comparison through raw h5py and through dclab + enumerated tdms fixtures",
+    "Generated .rtdc inputs in every storage layout the copier branches on (contiguous/chunked/oversized chunks, none/gzip/lzf/shuffle/Zstd 1-5-9, fletcher32, variable/fixed/empty logs incl. multi-byte lines >100 bytes, compound tables with attributes, file/mapped/internal basins, defective-feature markers, unknown datasets, temporary features, zero events) x compress / repack (strip flags) / condense (ancillary x basin flags), optionally applied twice; 7 tdms fixtures x options for tdms2rtdc. Oracles: input sha256 unchanged; values/dtypes/attributes/logs/tables/basin JSON/root attributes equal modulo documented additions; defective features not copied; compress output Zstd>=5; dclab views of input and output equal; condensed scalar features equal the input view. Exploration, not proof.",
+    "tdms inputs are the repository fixtures only; the defect rules are transcribed for a fixed list of version strings; an ffmpeg header timeout under load is counted as skip.",
+    "DESIGN.md §5 C08, notes/C08.md")
+CHECKS["C09"] = ("exploration",
+    "Hypothesis-generated measurements/split sizes/join input sets + reference model (numpy slicing and concatenation, exact Fraction arithmetic on time stamps, marker feature decoding the source order)",
+    "Split: sizes 1, divisor, non-divisor, remainder 1, N, >N; empty boundary images at the ends, at part boundaries and inside; both skip flags; optional re-join in order or reversed. Join: 2-5 inputs in random order, time stamps with mixed fractional digits, minute/day carry, ties, run indices incl. 10, differing feature sets (single, adjacent and non-adjacent missing, computable-only, extras). Oracles: parts partition the source in order with len<=size; join order chronological with documented tie-break; feature set sandwiched; values exact concatenation; time/frame offsets; index 1..N; index_online strictly increasing; logs of every source; join(split(x))==x. Exploration, not proof.",
+    "No tdms inputs; inputs of one join share frame rate, image shape and trace names; UTC assumed.",
+    "DESIGN.md §5 C09, notes/C09.md")
+CHECKS["C10"] = ("fault_enumeration",
+    "fault injection at every Python-level HDF5/file-system operation of a golden run (one-shot OSError, persistent failure, process kill before the operation) over enumerated + Hypothesis-generated task configurations",
+    "For compress, condense, repack, join, split, tdms2rtdc: a harness-side injector counts every outermost h5py mutation and pathlib/os/shutil step on paths of the case (K = 53..1270 per golden run); for fault points (mode, k) the task is re-run with the k-th operation raising OSError, with every write from k on failing (disk full), or in a forked child killed before operation k; stale outputs/temp files in the initial state. After the fault every requested output path must be absent, golden-equal, or the untouched complete stale file; other new files must be named *.rtdc~; inputs byte-identical; a fault-free run leaves no temp file; a re-run after the crash succeeds. Quick: stratified points (every open/close/rename/unlink/mkdir, first/last of each kind); thorough: every k in every mode for 12 fixed configurations.",
+    "Faults inside one HDF5 C call, power loss and fsync ordering are not modelled; kill = fork + os._exit; clock and uuid4 frozen so that complete outputs are structurally identical to the golden output; 'complete' means equal to the golden output of the same tree (content is C08/C09's subject).",
+    "DESIGN.md §5 C10, notes/C10.md")
+CHECKS["C12"] = ("exploration",
+    "Hypothesis-generated datasets/filters/poison values/queries + metamorphic oracle (filtered dataset == dataset of the selected events) + definitions + independent reference estimators",
+    "Generated datasets (clustered, tie-heavy, lognormal, signed, int/uint32, NaN/inf; dict and .rtdc) x filters (manual, box, invalid, limit, disabled) x poison on excluded events x queries (all statistics, get_kde_scatter 3 estimators x lin/log x own/explicit positions, get_kde_contour, quantile levels, contour lines, downsampled scatter, tsv export). Oracles: result equals that of a dataset holding only the selected events; statistics by definition; histogram-spline / Gaussian / product-kernel reference implementations (rtol 1e-9 + 1e-12 scale, ~870x margin); quantile fraction; iso-level vertices; mask marks selected events only; tsv rows equal %.10e text. Exploration, not proof.",
+    "scipy/numpy are trusted for the reference estimators; no reference for <3 events or singular data (metamorphic only); exceptions for degenerate inputs are unspecified (counted).",
+    "DESIGN.md §5 C12, notes/C12.md")
+CHECKS["C19"] = ("exploration",
+    "stateful operation-history generation (Hypothesis) against an in-process RFC 7233 range server + reference model (byte string + position) + local-vs-HTTP dataset differential",
+    "Byte level: random resources with length around multiples of the chunk size (chunk 1-4096, keep_chunks 1-8, length 0 included), histories of seek (SET/CUR/END), tell, read(n) ending on chunk boundaries, spanning chunks, ending at / crossing EOF, n=0; after every operation data, position, cache size <= keep_chunks, cached content, no chunk behind EOF. Dataset level: generated .rtdc files (scalar, image, mask, contour, trace, logs, tables; Zstd/gzip/none) opened through RTDC_HTTP / new_dataset(url) with small chunk sizes and compared with the local file (features, config incl. types, logs, tables). All comparisons exact. Exploration, not proof.",
+    "One server behaviour (invalid range ignored per RFC 7233); S3 transport not run; request counts are recorded but not judged.",
+    "DESIGN.md §5 C19, notes/C19.md")
 NOT_APPLICABLE = {}
 
 def main():
